@@ -2,6 +2,7 @@
   C17 — decode helper equals the codec; chunk mode trims cut UTF-8 cleanly.
 -/
 import CharsetProof.Model.DecodeHelper
+import CharsetProof.Lemmas.Utf8
 set_option linter.unusedSectionVars false
 namespace Charset
 
@@ -55,6 +56,39 @@ theorem C17_table_strict_events (tbl : List Nat) (b : Bytes) :
 theorem C17_ignore_replace_total (evs : List (Option Nat)) :
     applyTrap .ignore evs = some (evs.filterMap id) ∧
     applyTrap .replace evs = some (evs.map (fun e => e.getD 0xFFFD)) := ⟨rfl, rfl⟩
+
+/-- **C17 (UTF-8 round trip)** — strict decoding of the UTF-8 encoding of any scalar-value text gives it back -/
+theorem C17_utf8_roundtrip (t : Text) (hs : ∀ c ∈ t, isScalar c = true) : utf8Strict (utf8Encode t) = .ok t :=
+  utf8_roundtrip t hs
+
+/-- **C17 (chunk mode, all windows, all texts)** — a window cut at arbitrary byte positions out of valid
+    UTF-8 (text `… c mid d …`): the last `len(c) - k` bytes of a character `c` cut at the front (`k ≥ 1`
+    bytes missing; none of `c` when `k ≥ len(c)`), at least one complete character `mid`, and the
+    first `j < len(d)` bytes of a character `d` cut at the end. Chunk-mode decoding returns exactly the
+    complete characters inside the window: nothing dropped, duplicated or invented. Unbounded in the
+    length of `mid` and in the characters involved (1–4 byte encodings). -/
+theorem C17_utf8_window (c d : Nat) (mid : Text) (k j : Nat) (hd : isScalar d = true)
+    (hmid : ∀ x ∈ mid, isScalar x = true) (hne : mid ≠ []) (hk : 1 ≤ k) (hj : j < (utf8EncodeChar d).length) :
+    decodeStrict utf8Strict true true
+      ((utf8EncodeChar c).drop k ++ utf8Encode mid ++ (utf8EncodeChar d).take j) = .ok mid :=
+  utf8_window c d mid k j hd hmid hne hk hj
+
+/-- the same through the helper model: `decode(window, "utf-8", Strict, false, is_chunk = true)` -/
+theorem C17_helper_window (c d : Nat) (mid : Text) (k j : Nat) (hd : isScalar d = true)
+    (hmid : ∀ x ∈ mid, isScalar x = true) (hne : mid ≠ []) (hk : 1 ≤ k) (hj : j < (utf8EncodeChar d).length) :
+    decodeHelper .utf8 true .strict false true
+      ((utf8EncodeChar c).drop k ++ utf8Encode mid ++ (utf8EncodeChar d).take j) = some (some mid) := by
+  have h := utf8_window c d mid k j hd hmid hne hk hj
+  unfold decodeStrict at h
+  simp only [and_self, ↓reduceIte] at h
+  unfold decodeHelper
+  simp only [Codec.events, Codec.strict, and_self, ↓reduceIte, Bool.false_eq_true]
+  rw [h]
+  rfl
+
+/-- non-vacuity: a window of "aé€😀z" cut inside 'é' and inside '😀' -/
+example : (decodeStrict utf8Strict true true ((utf8EncodeChar 0xE9).drop 1 ++ utf8Encode [0x20AC] ++ (utf8EncodeChar 0x1F600).take 2)).toOption
+    = some [0x20AC] := by decide +kernel
 
 /-- the repaired retry loop starts every attempt from an empty buffer: a window whose inner slice
     decodes returns exactly that decode (nothing from failed attempts is kept). Kernel-evaluated on
